@@ -178,9 +178,9 @@ type HistOpt struct {
 	MinSteps, MaxSteps int
 	// Weights of the step kinds (relative).
 	PacketW, AdminW, EnvW int
-	Packet               func(t *rapid.T) Transfer
-	Admin                AdminOpt
-	Env                  EnvOpt
+	Packet                func(t *rapid.T) Transfer
+	Admin                 AdminOpt
+	Env                   EnvOpt
 }
 
 func GenHistory(t *rapid.T, opt HistOpt) History {
